@@ -526,6 +526,14 @@ impl<T: Copy> Buffer<T> {
             n
         );
         for tag in tags {
+            if tag.pos() >= n {
+                // Not on a committed sample. Callers that process only part
+                // of their input window pass the whole window's tags; the
+                // tags of the unconsumed samples come back with the next
+                // read window, and storing them now would attach them to an
+                // unrelated ring position (and deliver them twice).
+                continue;
+            }
             let pos = (tag.pos() + s.wpos) % s.capacity();
             let tag = Tag::new(pos, tag.key(), tag.val().clone());
             s.tags.entry(pos).or_default().push(tag);
